@@ -37,7 +37,9 @@ Call(c) ==
 
 (* one granted object-store request (or an internal step) of client c *)
 Step(c) ==
-  /\ \/ AV1(c) \/ AV2(c) \/ AV4(c) \/ AV5(c)
+  /\ \/ AV1(c) \/ AV4(c) \/ AV5(c)
+     \/ (\E n \in NewIds : AV2(c, n))
+     \/ ListStep(c)
      \/ CLL(c) \/ CLV(c) \/ CLS(c) \/ CLXO(c)
      \/ (\E e \in cl[c].dels : CLD(c, e))
      \/ (\E s \in cl[c].sdel : CLXS(c, s))
@@ -57,7 +59,7 @@ StepDraw(c) ==
 Fault(c) ==
   /\ nfaults < MaxFaults
   /\ \/ (FailBefore(c) \/ CLAbort(c)) /\ h' = Append(h, Ev("FailBefore", c))
-     \/ (FailAfterPut(c) \/ FailAfterCas(c) \/ FailAfterDel(c) \/ FailAfterSnap(c))
+     \/ ((\E n \in NewIds : FailAfterPut(c, n)) \/ FailAfterCas(c) \/ FailAfterDel(c) \/ FailAfterSnap(c))
           /\ h' = Append(h, Ev("FailAfter", c))
   /\ nfaults' = nfaults + 1
   /\ UNCHANGED nops /\ Track
